@@ -16,7 +16,10 @@ use super::{
     information_object::InformationObjectClassField, template::*, ExtensibilityEnvironment, Rasn,
     TaggingEnvironment,
 };
-use crate::generator::error::{GeneratorError, GeneratorErrorType};
+use crate::{
+    common::INTERNAL_EXTENSION_GROUP_NAME_PREFIX,
+    generator::error::{GeneratorError, GeneratorErrorType},
+};
 
 pub(crate) const INNER_ARRAY_LIKE_PREFIX: &str = "Anonymous_";
 
@@ -770,8 +773,14 @@ impl Rasn {
                 let mut annotations = vec![set_annotation, self.format_tag(tld.tag.as_ref())];
 
                 // ITU-T X.680 clause 25.3: enable automatic tagging if none of the members are tagged type
+                // (the components of an extension addition group are components of the type as well)
                 if self.tagging_environment == TaggingEnvironment::Automatic
-                    && !seq.members.iter().any(|m| m.tag.is_some())
+                    && !seq.members.iter().any(|m| {
+                        m.tag.is_some()
+                            || (m.name.starts_with(INTERNAL_EXTENSION_GROUP_NAME_PREFIX)
+                                && matches!(&m.ty, ASN1Type::Sequence(group)
+                                    if group.members.iter().any(|g| g.tag.is_some())))
+                    })
                 {
                     annotations.push(quote!(automatic_tags));
                 }
